@@ -252,6 +252,32 @@ def replicateAll (c : Cluster) (down hangNext stuck : List Nat) : List Nat → I
     let r2 := replicateAll r1.1 down hangNext r1.2.1 ts iss
     (r2.1, r2.2.1, r1.2.2 :: r2.2.2)
 
+/-- One batch of the task distributor (`execute_batch`): the mutations queued since the last tick
+go to every live member, the replies are only logged.  Since fix D32 each request has a deadline, so
+the tick ends whatever the members do and the next batch is sent with the next tick. -/
+def broadcast (c : Cluster) (down hangNext stuck : List Nat) (targets : List Nat) (iss : Issued) :
+    Cluster × List Nat :=
+  let r := replicateAll c down hangNext stuck targets iss
+  (r.1, r.2.1)
+
+/-- The batches of successive ticks. -/
+def broadcastAll (c : Cluster) (down hangNext stuck : List Nat) (targets : List Nat) :
+    List Issued → Cluster × List Nat
+  | [] => (c, stuck)
+  | iss :: rest =>
+    let r := broadcast c down hangNext stuck targets iss
+    broadcastAll r.1 down (hangNext.filter (fun t => !r.2.contains t)) r.2 targets rest
+
+/-- The pinned `execute_batch` joined every request without a deadline: the first tick with a silent
+member never ended, so no later batch was ever sent - to anybody. -/
+def broadcastAllLegacy (c : Cluster) (down hangNext stuck : List Nat) (targets : List Nat) :
+    List Issued → Cluster × List Nat
+  | [] => (c, stuck)
+  | iss :: rest =>
+    let r := replicateAll c down hangNext stuck targets iss
+    if r.2.2.contains .silent then (r.1, r.2.1)
+    else broadcastAllLegacy r.1 down (hangNext.filter (fun t => !r.2.1.contains t)) r.2.1 targets rest
+
 /-- The outcome of a write issued at node `i` at a level whose selected replicas are `targets`. -/
 inductive WriteOut where
   | localFailed                       -- the issuer's own handler failed: nothing is sent
